@@ -47,7 +47,7 @@ impl Check for C13C {
                 split: true,
                 set_value: true,
                 max_creations: 1,
-                names: &["n", "x", "r", "a:b", "", "1a", "a b", "xml", "a:b:c"],
+                names: &["n", "x", "r", "a:b", "", "1a", "a b", "xml", "a:b:c", "n\r", "n\n"],
                 values: &["v", "", "a b", "x<y", "a&b"],
             chardata: &[],
             chardata_extra: 0,
